@@ -11,3 +11,4 @@ import GarbleVerif.Proofs.Mark
 import GarbleVerif.Proofs.BuildSound
 import GarbleVerif.Props.C04
 import GarbleVerif.Props.C10
+import GarbleVerif.Props.C15
